@@ -4,6 +4,7 @@ C17 — Functions that write into a caller's buffer only append to it.
 import JsonbModel.Proofs.SerLayout
 import JsonbModel.Proofs.SetRefine
 import JsonbModel.Proofs.AppendOnly
+import JsonbModel.Proofs.SerFrameAny
 
 namespace Jsonb.Props
 open Jsonb JV
@@ -88,5 +89,13 @@ theorem C17_select (jp : JsonPath) (mode : Sel.Mode) (root data : Bytes) (offs :
 theorem C17_T_convert_to_comparable (value buf : Bytes) :
     T.convertToComparable value buf = (T.convertToComparable value []).map (buf ++ ·) :=
   T_convertToComparable_frame value buf
+
+/-- **`Value::write_to_vec` for EVERY value (also outside the format's field widths) and every prior
+buffer**: the prior bytes are a prefix, the appended bytes are those written into an empty buffer, and
+the encoder model never panics -/
+theorem C17_write_to_vec_any (pre : Bytes) (v : JV) : writeToVec pre v = (writeToVec [] v).map (pre ++ ·) :=
+  writeToVec_frame pre v
+theorem C17_write_to_vec_total (pre : Bytes) (v : JV) : ∃ app, writeToVec pre v = .ok (pre ++ app) :=
+  writeToVec_ok pre v
 
 end Jsonb.Props
